@@ -14,6 +14,8 @@ CLAIMED = {
          "DESIGN.md 5/C04", "invariant + frame theorems (Coq) + correspondence incl. next-id + provenance sweep oracle"),
  "C05": ("Theorems over the Hypergraph model: C05_error_types (every op ends in Ok/XGIError/IDNotFound; IndexError, TypeError, ValueError are confined to the listed ops), declarative effects C05_remove_node_strong, C05_remove_node_weak (with remove_empty), C05_remove_edge, C05_add_edge (with frame), C05_attr_precedence, C05_swap_preserves (degrees, sizes, ids, attributes). PARTIAL: the effects of merge_duplicate_edges, update, the setters, clear/clear_edges and random_edge_shuffle, and all effects for the directed and simplicial classes, are not stated as theorems; they are covered by the full-snapshot correspondence (all three classes) and, for Hypergraph, by the documentation-level reference oracle on every step.",
          "DESIGN.md 5/C05", "declarative effect theorems (Coq) + full-snapshot correspondence on histories + documentation-level reference oracle"),
+ "C18": ("freeze() is modelled as a dispatch over the list of replaced method names, which a fail-closed translator regenerates from the three freeze() bodies on every run (Gen/FreezeLists.v). Theorems: C18_lists_protect (reflective obligation over the regenerated lists: every table-writing method is replaced), C18_frozen_unchanged_{hg,di,sc} (for every op of the class, compound methods, deprecated aliases and in-place helpers included, and every argument, nodes/edges/memberships are unchanged), C18_frozen_blocks (direct mutators: XGIError, state untouched), C18_unfrozen_is_step. Correspondence: two-phase histories (edits, freeze(), more calls) against fstep/dfstep/sfstep; every public method found by introspection is probed unfrozen and frozen, so a new mutator that the model does not know breaks the correspondence.",
+         "DESIGN.md 5/C18", "regenerated freeze lists + reflective obligation + dispatch theorems (Coq) + two-phase correspondence + method-surface probing"),
 }
 NOTE = ("trusted: Coq 8.16.1 kernel and vm_compute; no axioms (Print Assumptions: Closed under the global context); "
         "harness generators/serialiser/observation; CPython containers and numeric libraries are environment "
